@@ -136,5 +136,57 @@ func init() {
 		}
 		x.Raw("def upgrade8To10 : List (String × String) := " + leanPairs(up))
 		x.DefOptBool("upgradeWriteBeforeExecute", upWB, upFound)
+
+		x.Comment("Upgrade8To10 resume branch (if fsutil.FileExists(planPath) {…}): is p.Execute guarded by `if fsutil.DirExists(new) {clean-up} else`?")
+		var guard, gFound bool
+		if fd := x.Func("snapshot", "", "Upgrade8To10"); fd != nil {
+			for _, s := range fd.Body.List {
+				is, ok := s.(*ast.IfStmt)
+				if !ok || x.Src(is.Cond) != "fsutil.FileExists(planPath)" {
+					continue
+				}
+				gFound = true
+				for _, t := range is.Body.List {
+					g, ok := t.(*ast.IfStmt)
+					if !ok || x.Src(g.Cond) != "fsutil.DirExists(new)" {
+						continue
+					}
+					// the guarded branch must not execute the plan, the else branch must
+					if len(x.Calls(g.Body, "Execute")) == 0 && g.Else != nil && len(x.Calls(g.Else, "Execute")) == 1 &&
+						len(x.Calls(g.Body, "RemoveAll")) == 2 {
+						guard = true
+					}
+				}
+				// no unguarded Execute directly in the resume block
+				for _, t := range is.Body.List {
+					if g, ok := t.(*ast.IfStmt); ok && x.Src(g.Cond) == "fsutil.DirExists(new)" {
+						continue
+					}
+					if len(x.Calls(t, "Execute")) > 0 {
+						guard = false
+					}
+				}
+			}
+		}
+		x.DefOptBool("upgradeResumeSkipsPlanWhenNewExists", guard, gFound)
+
+		x.Comment("store/store.go (*Store).Open: order of the snapshot-related calls")
+		var order []string
+		if fd := x.Func("store", "Store", "Open"); fd != nil {
+			ast.Inspect(fd.Body, func(n ast.Node) bool {
+				if c, ok := n.(*ast.CallExpr); ok {
+					switch calleeName(c) {
+					case "Upgrade7To8", "Upgrade8To10", "NewStore":
+						if sel, ok := c.Fun.(*ast.SelectorExpr); ok {
+							if id, ok := sel.X.(*ast.Ident); ok && id.Name == "snapshot" {
+								order = append(order, calleeName(c))
+							}
+						}
+					}
+				}
+				return true
+			})
+		}
+		x.DefStrings("openSnapshotCalls", order)
 	})
 }
